@@ -153,7 +153,7 @@ CHECKS["C10"] = dict(
           'sources, whose fetchers address memory directly by design); accessors are not installed on > 32 bpp images (documented'
           ' restriction). Value law for every narrow source format incl. indexed and YUV: what the float pipeline reads '
           '(rgba_float destination) is within one 8-bit step of what the 8-bit pipeline reads. Callbacks may be installed after '
-          'the images were first drawn with. Float narrowing (exh): an rgba_float ramp from -1e30 to 1e30 stored into every packed format by SRC and, for formats with alpha, by MULTIPLY onto a cleared destination (unclamped combiner): 0 below 0, the channel maximum above 1, monotone in between. The codec property also runs under the MMX and the general-only chain. Non-trivial ='
+          'the images were first drawn with. Direct-fill store (exh): twelve colours stored by fill_rectangles(SRC) must give the pixel that compositing the same solid gives, for every destination format. Float narrowing (exh): an rgba_float ramp from -1e30 to 1e30 stored into every packed format by SRC and, for formats with alpha, by MULTIPLY onto a cleared destination (unclamped combiner): 0 below 0, the channel maximum above 1, monotone in between. The codec property also runs under the MMX and the general-only chain. Non-trivial ='
           ' unaligned start/end, indexed/YUV source, or accessor callbacks observed.'),
     jobs=[
         dict(harness="formats", prop="exh", cases=T(1200, 1500), procs=T(4, 8)),
@@ -208,7 +208,7 @@ CHECKS["C12"] = dict(
           'every pixel equals the saturating count of grid samples with X_l <= x < X_r, top <= y < bottom computed in exact '
           'rational arithmetic (pixels where an edge passes within 2 units of a sample point are skipped and counted); horizontal'
           ' split, edge split with the middle line given by the same two points, whole-pixel offset commutation, triangle = '
-          'independent two-trapezoid decomposition and permutation invariance, add_traps = rasterize of the equivalent trapezoid,'
+          'independent two-trapezoid decomposition and permutation invariance, add_traps = rasterize of the equivalent trapezoid (the span preceded in the same call by up to two spans that cover no sample row),'
           ' composite_trapezoids(op in CLEAR..SATURATE, solid/bits source, 6 destination formats) = rasterise into a zeroed mask '
           '+ composite32. Non-trivial = some sample covered and a non-vertical edge (law dependent). Also run coverage-guided: '
           "the libFuzzer target fz_traps decodes the fuzzer's bytes through the same generator into the same oracle (ASan build)."),
@@ -393,7 +393,7 @@ CHECKS["C13"] = dict(
     level="exploration",
     rule=('(gradient) rapidcheck: 1-8 stops with non-decreasing positions in [0,1] incl. repeated positions and gaps at both '
           'ends; linear (incl. horizontal/vertical axes), radial (concentric, nested, disjoint, r=0, equal radii) and conical '
-          'gradients (any angle, centre on a pixel centre); four repeats; identity / scale / affine / projective transforms; '
+          'gradients (any angle incl. negative and more than one turn, -800..800 degrees; centre on a pixel centre); four repeats; identity / scale / affine / projective transforms; '
           'a8r8g8b8 and rgba_float destinations; rows of 1-40 pixels. Special modes (6% each): 1-3 px wide, 300-4000 px tall '
           'requests over almost horizontal linear gradients; geometry 16400-29000 px away from the request; internally tangent '
           'circles (a == 0 exactly; 40% of them untransformed and on the pixel grid, so that a column of pixel centres lies exactly on the tangent line, where no root exists and the pixel must be transparent). 30% of requests use OVER onto a random destination instead of SRC (pixels without admissible'
@@ -504,7 +504,7 @@ CHECKS["C15"] = dict(
     rule=("rapidcheck scenarios (short API programs): 16/32-bit region algebra on multi-rectangle regions (init_rects with up to 87 "
           "scattered boxes so that validate() outgrows its stack array, union/intersect/subtract/inverse/copy/union_rect/"
           "translate chains), image constructors (library-owned bits, three gradients, solid), allocating setters (transform, "
-          "filter parameters, multi-box clip) followed by a draw, fill_rectangles with > 6 rectangles, composites that need heap "
+          "filter parameters, multi-box clip; half of them on a destination that already has a clip: after a failed replacement drawing must stay inside the old or the new clip) followed by a draw, fill_rectangles with > 6 rectangles, composites that need heap "
           "scanline buffers (700 px wide 10 bpc / 2100 px 8 bpc rows, destination alpha maps, wide stores, division operators), "
           "composite_trapezoids/_triangles, glyph cache create/insert/composite_glyphs(_no_mask), "
           "pixman_filter_create_separable_convolution, 16<->32-bit region conversion through clip + compute_composite_region. "
